@@ -263,6 +263,28 @@ func checkC07(c *Ctx) {
 		reportFindings(c, p, "C07.stalecap", nil, hits, "")
 		c.Ob("C07.stalecap", "-", "-", "reslices-scanned", "-", n > 0, "no reslice found in the codec files")
 	}
+	c.Rule("C07.zerouse", "L-ZEROUSE (belief contradiction) over the curve packages and their towers: on the branch where P.IsZero() returned true, P is not asked for its sign (LexicographicallyLargest, Legendre) nor multiplied / inverted: the answer is a constant, so the test looks at another coordinate than the one consulted (the compressed encoding picks the sign bit from the first non-zero coordinate from the top)", 20)
+	{
+		n := 0
+		var hits []Finding
+		seenFn := map[*ssa.Function]bool{}
+		for _, pk := range curvePkgs {
+			for _, pat := range []string{pk, pk + "/internal/fptower"} {
+				for _, fn := range libFuncs(p, pat) {
+					if seenFn[fn] {
+						continue
+					}
+					seenFn[fn] = true
+					k, h := zeroKnownOperands(p, fn)
+					n += k
+					hits = append(hits, h...)
+				}
+			}
+		}
+		c.Instance("C07.zerouse", n)
+		reportFindings(c, p, "C07.zerouse", nil, hits, "")
+		c.Ob("C07.zerouse", "-", "-", "zero-tests-scanned", "-", n > 0, "no IsZero test found")
+	}
 	{
 		sites, hits := droppedErrors(p, codec)
 		c.Instance("C07.err", sites)
@@ -568,18 +590,23 @@ func checkParallelPhase(c *Ctx, p *Program, dec *ssa.Function) {
 						if a.Kind != "cmp" {
 							continue
 						}
+						if _, cl := constInt(a.X); cl {
+							a.X, a.Y, a.Op = a.Y, a.X, swapOp(a.Op)
+						}
 						ld, isLoad := a.X.(*ssa.UnOp)
 						k, isZero := constInt(a.Y)
-						if !isLoad || ld.X != cell || !isZero || k != 0 {
+						if !isLoad || ld.X != cell || !isZero || (k != 0 && k != 1) {
 							continue
 						}
-						// delete the edge on which counter == 0 holds
+						// delete the edge on which counter == 0 holds; for an unsigned counter
+						// `c <= 0` and `c < 1` say the same as `c == 0`
+						uns := isUnsigned(ld.Type())
 						for ei := 0; ei < 2; ei++ {
 							op := a.Op
 							if ei == 1 {
 								op = negOp(op)
 							}
-							if op == token.EQL {
+							if (k == 0 && (op == token.EQL || (uns && op == token.LEQ))) || (k == 1 && uns && op == token.LSS) {
 								deleted[edge{bb.Index, bb.Succs[ei].Index}] = true
 							}
 						}
